@@ -1,6 +1,7 @@
 mod frame;
 mod genr;
 mod journal;
+mod logsink;
 mod model;
 mod props;
 mod refcodec;
@@ -163,12 +164,14 @@ fn arg_after(args: &[String], k: &str) -> Option<String> {
 fn main() {
     let args: Vec<String> = std::env::args().collect();
     store::install_panic_hook();
+    logsink::install();
     let cmd = args.get(1).map(|s| s.as_str()).unwrap_or("");
     let code = match cmd {
         "check" => cmd_check(&args),
         "shard" => cmd_shard(&args),
         "replay" => cmd_replay(&args),
         "c13-child" => props::c13::child_main(&args),
+        "c13-hold" => props::c13x::hold_main(&args),
         "miri" => props::miri::main(&args),
         "c12-big" => props::codec::big_child(&args),
         _ => {
@@ -199,8 +202,10 @@ fn cmd_shard(args: &[String]) -> i32 {
     let idx: u32 = args[5].parse().unwrap_or(0);
     let n: u32 = args[6].parse().unwrap_or(1);
     let outp = args[7].clone();
+    let _ = frame::PARTIAL_OUT.set(outp.clone());
     let mut ctx = Ctx { prop: prop.clone(), tier, seed, shard: idx, nshards: n, out: ShardOut::default(), t0: util::now_s(), budget_s: budget(&prop, tier) };
     run_shard(&mut ctx);
+    ctx.out.count("log_lines_of_the_store_formatted(logger_installed_at_trace_level)", logsink::lines());
     let s = serde_json::to_string(&ctx.out.to_json()).unwrap_or_default();
     if std::fs::write(&outp, s).is_err() {
         return 4;
@@ -256,8 +261,19 @@ fn cmd_check(args: &[String]) -> i32 {
                         Some(v) => merged.merge_json(&v),
                         None => failures.push(format!("shard {} wrote no result", i)),
                     },
-                    Some(st) => failures.push(format!("shard {} exited with {:?}", i, st.code())),
-                    None => failures.push(format!("shard {} hit the wall-clock watchdog", i)),
+                    Some(st) => {
+                        failures.push(format!("shard {} exited with {:?}", i, st.code()));
+                        if let Some(v) = std::fs::read_to_string(format!("{}.partial", outp)).ok().and_then(|s| serde_json::from_str::<serde_json::Value>(&s).ok()) {
+                            merged.merge_json(&v);
+                        }
+                    }
+                    None => {
+                        failures.push(format!("shard {} hit the wall-clock watchdog", i));
+                        // what it had found until then still counts
+                        if let Some(v) = std::fs::read_to_string(format!("{}.partial", outp)).ok().and_then(|s| serde_json::from_str::<serde_json::Value>(&s).ok()) {
+                            merged.merge_json(&v);
+                        }
+                    }
                 }
             }
         }
@@ -379,6 +395,8 @@ fn cmd_replay(args: &[String]) -> i32 {
             (0..20).find_map(|_| props::seq::c16_concurrent(seed))
         }
         "c16w" => props::c16walk::replay(rp),
+        "c15big" => props::bigchunk::replay(rp),
+        "c07big" => props::bigread::replay(rp),
         "c15w" => props::c16walk::replay15(rp),
         "maxbatch" => props::maxbatch::replay(rp),
         "c09" => props::image::replay(rp, true),
